@@ -117,3 +117,11 @@ def register(check, not_yet):
           "Bound: histories of length 2 (quick) / 3 (thorough) over 3 dispatch values + :default; keyword hashes fixed by PYTHONHASHSEED=0. "
           "Data is concrete on each path: the solver's role is choosing operations/orders exhaustively.",
           "CrossHair (z3) exploration of solver-chosen operation histories on the real classes", "DESIGN.md section 4 C18", "A:crosshair")
+    check("C08", "other",
+          "Bounded symbolic verification under CrossHair of the compiled function objects and runtime.apply/partial: for each enumerated "
+          "arity signature the argument count (0..5), the apply split point, the partial split point and the argument values are solver "
+          "variables; outcome (selected arity, parameters in order, rest seq or nil, arity error before the body runs) is compared with "
+          "the 6-line arity rule for direct calls, calls through the Var, apply with vector/list/lazy tails and infinite tails, partial.",
+          "Signatures are enumerated (6 quick / 13 thorough). Constant stack for recur is a single concrete 10^6-iteration run under a "
+          "recursion limit of 250, not a solver verdict.",
+          "CrossHair (z3) symbolic execution of compiled fn objects + runtime.apply/partial", "DESIGN.md section 4 C08", "A:crosshair")
